@@ -274,5 +274,54 @@ func snapLenFacts() string {
 	sb.WriteString("def dropsVlanTagged : Bool := " + leanBool(dropsTagged) + "\n\n")
 	sb.WriteString("/-- `afpacket.Source.ReadPacketData` and `Close` take one mutex, `Close` marks the source closed before it unmaps\n    the ring, a read after that reports io.EOF, and the frame handed out is a copy (so nothing touches the ring once\n    `Close` has returned: the receiver goroutine outlives the engine run that started it) -/\n")
 	sb.WriteString("def readSafeAgainstClose : Bool := " + leanBool(serialised && copies) + "\n\n")
+	// the two bodies as sequences of lock-protocol steps, in source order (Model/CaptureSource.lean gives them meaning)
+	opOf := func(st ast.Stmt) string {
+		t := src(st)
+		switch {
+		case t == "s.mu.Lock()":
+			return ".lock"
+		case t == "s.mu.Unlock()":
+			return ".unlock"
+		case t == "defer s.mu.Unlock()":
+			return ".deferUnlock"
+		case t == "s.closed = true":
+			return ".setClosed"
+		case t == "s.handle.Close()":
+			return ".unmap"
+		case t == "if s.closed { s.mu.Unlock() return nil, nil, io.EOF }":
+			return ".eofIfClosed"
+		case strings.HasSuffix(t, ":= s.handle.ReadPacketData()"):
+			return ".readCopy"
+		case strings.HasSuffix(t, ":= s.handle.ZeroCopyReadPacketData()"):
+			return ".readZeroCopy"
+		case strings.Contains(t, "s.handle") || strings.Contains(t, "s.mu") || strings.Contains(t, "s.closed"):
+			return ".other"
+		}
+		return ""
+	}
+	seq := func(list []ast.Stmt) string {
+		var ops []string
+		for _, st := range list {
+			if o := opOf(st); o != "" {
+				ops = append(ops, o)
+			}
+		}
+		return "[" + strings.Join(ops, ", ") + "]"
+	}
+	readSeq, closeSeq := "[]", "[]"
+	if fd := findFunc(af, "Source", "ReadPacketData"); fd != nil && len(fd.Body.List) == 1 {
+		if loop, ok := fd.Body.List[0].(*ast.ForStmt); ok {
+			readSeq = seq(loop.Body.List)
+		} else {
+			readSeq = seq(fd.Body.List)
+		}
+	} else if fd != nil {
+		readSeq = seq(fd.Body.List)
+	}
+	if fd := findFunc(af, "Source", "Close"); fd != nil {
+		closeSeq = seq(fd.Body.List)
+	}
+	sb.WriteString("/-- `afpacket.Source.ReadPacketData` (one iteration of its loop) and `Close` as lock-protocol steps, in source order -/\n")
+	sb.WriteString("def sourceDesc : SxVerif.CaptureSource.Desc := { read := " + readSeq + ", close := " + closeSeq + " }\n\n")
 	return sb.String()
 }
